@@ -179,6 +179,27 @@ pub fn replay_item(out: &mut Out, bv: &Value, rng: &mut Rng, n: usize) {
                     let exp = expected(e, &t, &asg, &ph);
                     checked_call(out, e, &text, &ph, Some(&exp), json!({"v": "accept"}), true, &ctx);
                 }
+                // every pair and some triples over the boundary values (two zeros, two extremes, mixed signs)
+                let lits = ["0", "1", "2", "6", "9223372036854775807"];
+                for x in [0.0f64, 1.0, -1.0, 2.0, -6.0, 9223372036854775807.0, -9223372036854775808.0, 0.5] {
+                    for ph in phs_of(e, x) {
+                        let ph = match (&ph, e) { (Val::I(_), _) if x == 9223372036854775807.0 => Val::I(i64::MAX), (Val::I(_), _) if x == -9223372036854775808.0 => Val::I(i64::MIN),
+                                                  (Val::N(Number::Integer(_)), _) if x == 9223372036854775807.0 => Val::N(Number::Integer(i64::MAX)),
+                                                  (Val::N(Number::Integer(_)), _) if x == -9223372036854775808.0 => Val::N(Number::Integer(i64::MIN)), _ => ph };
+                        for l in lits {
+                            let mut asg = Asg::default();
+                            asg.fns.insert(1, func.to_string());
+                            asg.lits.insert(5, (l.to_string(), false));
+                            for (t, text) in [(T::Call(cls.into(), 1, vec![T::Ans(3), T::Num(5)]), format!("{}(@,{})", spell, l)),
+                                              (T::Call(cls.into(), 1, vec![T::Num(5), T::Ans(3)]), format!("{}({},@)", spell, l)),
+                                              (T::Call(cls.into(), 1, vec![T::Ans(3), T::Ans(3)]), format!("{}(@,@)", spell)),
+                                              (T::Call(cls.into(), 1, vec![T::Ans(3), T::Num(5), T::Ans(3)]), format!("{}(@,{},@)", spell, l))] {
+                                let exp = expected(e, &t, &asg, &ph);
+                                checked_call(out, e, &text, &ph, Some(&exp), json!({"v": "accept"}), true, &ctx);
+                            }
+                        }
+                    }
+                }
             }
         }
     }
